@@ -95,6 +95,10 @@ def convertMCNPGeometry(mcnp_parser, lattice_params, args):
     if not args.skip_deduplication:
         dic_surface_t4, renumber = remove_duplicate_surfaces(dic_surface_t4)
         dic_volume = renumber_surfaces(dic_volume, renumber)
+        # the helper planes for unions may have been merged with identical
+        # surfaces of the deck (PX 1, PX -1)
+        union_ids = tuple(renumber.get(surf_id, surf_id)
+                          for surf_id in union_ids)
 
     remove_empty_volumes(dic_volume, union_ids)
     remove_unused_volumes(dic_volume)
